@@ -899,8 +899,9 @@ def _depends_on(cfg, at, test, mention, rem) -> bool:
 
 def empty_batches(ck, repo, res, eff):
     """R9: the data handed to an update routine is not emptied in the world where a remainder is zero."""
+    transparent = repo.transparent_helpers()
     for qual, fn, mi in repo.all_functions():
-        if "<locals>" in qual or qual in repo.transparent_helpers():
+        if "<locals>" in qual or qual in transparent:
             continue
         eff.summary(qual)
         calls = [c for k, c, p_, op in eff.sites.get(qual, []) if k.startswith("call ") and k.split(" ", 1)[1] in TRAINEES and _enclosing_fn(c, fn) is fn]
